@@ -35,11 +35,12 @@ Definition bytes := list Z.
    fx_dct   02 data-chunk table length must equal the header's number_of_data_chunks
    fx_link  03 ADF_Get_Link_Path / ADF_Link_Size: type exactly LK, one dimension, 1 <= length <= 5121 / file_bytes,
                file part <= 1024 and path part <= 4096 characters
-   fx_nest  04 ADF_MAXIMUM_LINK_DEPTH also bounds the nesting of ADFI_chase_link activations
+   fx_nest  04 ADF_MAXIMUM_LINK_DEPTH also bounds the nesting of ADFI_chase_link activations (/repo 8281ca0)
    fx_fmt   05 unknown format / OS-size letters are ADF_FILE_FORMAT_NOT_RECOGNIZED (was: assert, shift of a negative char)
    fx_tag   06 boundary tags of node header and free-chunk table compared over exactly 4 bytes
    fx_dtov  07 data-type sizes that do not fit an int are INVALID_DATA_TYPE (was: signed overflow)
-   fx_rtype 08 ADF_Read_All_Data compares the caller's type with the node's whole type (was: first 2 characters)
+   fx_rtype 08 ADF_Read_All_Data refuses a two-character memory type for a node whose type goes on after two
+               characters (/repo 3a1c414; was: first 2 characters compared only)
    fx_dim   11 ADF_Get_Dimension_Values refuses values >= 2^63
    fx_short 13 ADFI_read_file refuses bytes beyond what the (short) block read obtained, and negative lengths
    fx_sizes 14 untranslated copy only if the header's type sizes equal the machine's
